@@ -95,7 +95,7 @@ CLAIMS = {
  "C06": ("Coq theorems: whatever bytes a stream carries the server keeps reading, starts the handler with a request that really decodes from them, or fails that stream only; "
          "hostile streams change only themselves and honest RPCs on the same connection keep their pairing; the manager leaves its loop only on shutdown; tied by trace acceptance (the victim's recorded manager / handler events are replayed on Shutdown.v, which must accept them and still be in its loop with the same peers) and by an "
          "adversary endpoint with a valid identity performing random / truncated / mutated / oversized requests and every stream-level misbehaviour, unidirectional streams, "
-         "datagrams (held open, reset or finished) and abrupt closes while honest peers run RPCs (panic hook, liveness and correctness monitors). Partial: Rust panic-freedom is exercised, not proved.",
+         "datagrams (held open, reset or finished), abrupt closes and hostile answers to the victim's own calls while honest peers run RPCs (panic hook, liveness and correctness monitors). Partial: Rust panic-freedom is exercised, not proved.",
          "panic-freedom of the transcribed Rust functions is exercised only."),
  "C12": ("Coq theorems on Rpc.v extended with abandonment (reset of the send half, stop of the receive half, possible in every caller state): once noticed, the handler is "
          "dropped and none ever starts, closed streams are absorbing, every abandoned open stream has an enabled closing step, at server quiescence every abandoned stream is "
